@@ -20,7 +20,7 @@ exec(open(os.path.join(HERE, "tools", "manifest_table.py")).read())
 props = [json.loads(l)["id"] for l in open(os.path.join(HERE, "properties.jsonl"))]
 man = {
     "version": 1,
-    "setup_cmd": "/venv/bin/python -c 'import hypothesis, jsonschema, lxml' 2>/dev/null || /venv/bin/pip install --no-index --find-links /opt/veriftools/wheels hypothesis jsonschema lxml; test -d /verif/.deps/atheris || /venv/bin/pip install -q --no-index --find-links /opt/veriftools/wheels --no-deps --target /verif/.deps atheris || true",
+    "setup_cmd": "/venv/bin/python -c 'import hypothesis, jsonschema, lxml' 2>/dev/null || /venv/bin/pip install --no-index --find-links /opt/veriftools/wheels hypothesis jsonschema lxml; test -d .deps/atheris || /venv/bin/pip install -q --no-index --find-links /opt/veriftools/wheels --no-deps --target .deps atheris || true",
     "hooks": {
         "guard": "PIXEE_CODEMODDER_PYTHON_VERIF",
         "enable": "no hooks in /repo: instrumentation is applied by /verif/cmv at run time at libcst/stdlib seams inside forked children; checks import /repo/src directly (editable install)",
